@@ -15,6 +15,7 @@ for d in sorted(glob.glob("/verif/seeded/*/")):
     out.append({"name": "seed-" + name, "kind": "armed", "pids": sorted(exp), "expect": exp, "diff": open(d + "patch.diff").read()})
 for d in sorted(glob.glob("/verif/neutral/*/")):
     name = os.path.basename(d.rstrip("/"))
-    out.append({"name": "neutral-" + name, "kind": "neutral", "pids": "all", "expect": {}, "diff": open(d + "patch.diff").read()})
+    kind = "refused" if os.path.exists(d + "REFUSED") else "neutral"
+    out.append({"name": "neutral-" + name, "kind": kind, "pids": "all", "expect": {}, "diff": open(d + "patch.diff").read()})
 json.dump(out, open("/verif/selftest_data/patches.json", "w"), indent=1)
 print(len(out), "patch variants;", sum(1 for o in out if o["kind"] == "armed"), "armed")
